@@ -17,6 +17,7 @@ PROP = dict(
     level_note='Trusts: Xerces-C SAX2 parser as the independent reader (uninstrumented system binary); ICU decides which characters an encoding can represent (defines only where an error is an acceptable outcome); '
                'indent="yes", doctype and standalone output are not generated; scripts <= 60 events, <= 3000 UTF-16 units.',
     design_ref='DESIGN.md section 7 (C04), 3.2, 5, 6',
+    run_timeout=200,
     runs=dict(quick=40000, thorough=600000),   # measured on 16 cores: ~650-900 scripts/s; quick ~60 s + ~0.7 s per not-yet-known finding for gate/minimise/replay
     nontrivial_counter=['faults_fired', 'probe:straddle-512', 'probe:explicit-flush'],
     rule='One evaluation = one script of SAX events (startElement+attributes incl. xmlns declarations, characters, cdata, ignorableWhitespace, comment, processingInstruction, endElement, flush) '
